@@ -461,6 +461,10 @@ func (k Keeper) ParsePricing(ctx sdk.Context, pricing string) (p types.Pricing, 
 		return p, sdkerrors.Wrapf(types.ErrInvalidPricing, "invalid price: %s", err.Error())
 	}
 
+	if priceCoin.Amount.BigInt().BitLen() > maxAmountBits {
+		return p, sdkerrors.Wrapf(types.ErrInvalidPricing, "invalid price: %s is too large", priceCoin)
+	}
+
 	if priceCoin.IsZero() {
 		p.Price = sdk.Coins{sdk.NewCoin(priceCoin.Denom, sdk.NewInt(0))}
 	} else {
@@ -585,6 +589,10 @@ func (k Keeper) getMinDeposit(ctx sdk.Context, pricing types.Pricing) sdk.Coins 
 	return minDeposit
 }
 
+// maxAmountBits bounds the prices and deposits the keeper computes with: far above any real supply, and small
+// enough that a deposit added to another, or a price times the minimum deposit multiple, cannot overflow sdk.Int
+const maxAmountBits = 128
+
 // validateDeposit validates the given deposit
 func (k Keeper) validateDeposit(ctx sdk.Context, deposit sdk.Coins) error {
 	baseDenom := k.BaseDenom(ctx)
@@ -600,6 +608,10 @@ func (k Keeper) validateDeposit(ctx sdk.Context, deposit sdk.Coins) error {
 
 	if len(deposit) != 1 || token.GetMinUnit() != baseDenom {
 		return sdkerrors.Wrapf(types.ErrInvalidDeposit, "deposit only accepts %s", baseDenom)
+	}
+
+	if deposit[0].Amount.BigInt().BitLen() > maxAmountBits {
+		return sdkerrors.Wrapf(types.ErrInvalidDeposit, "deposit %s is too large", deposit)
 	}
 
 	return nil
